@@ -136,15 +136,25 @@ class Focused(Part):
         D.preimport()
 
     def strategy(self, ctx):
-        return strategy(max_convs=1, max_pre=0, preempts=0, max_items=3)
+        def rich(case):
+            # observers that matter for the close-ordering windows: a waitclose() caller and something to deliver
+            for p in case["convs"]:
+                p["waiters"] = max(1, p["waiters"])
+                if not p["items"]:
+                    p["items"] = [0]
+            return case
+
+        return strategy(max_convs=1, max_pre=0, preempts=0, max_items=3).map(rich)
+
 
     def run(self, case, ctx):
+        from vlib import explore
+
         single = case.get("single")
         if single is not None:
-            out, ex = run_case(case, preempt_at=(single[0],), sparse=dict(pre=[], blk=[], line_pick=single[1]), focus=FOCUS)
+            out, ex = run_case(case, preempt_at=(single[0],), sparse=explore.line_sparse(single[1]), focus=FOCUS)
             judge(case, out, ex)
             return dict(nontrivial=True)
-        from vlib import explore
 
         runs, viol, n, stride = 0, [], 0, 1
         for order in (0, 1):
